@@ -334,7 +334,7 @@ func c26RunScenario(h *H, dec *a12Dec, s *c26Scenario) {
 		lastKind := "none"
 		cnt := 0
 		for _, e := range rec.Events {
-			if (e.Op == "save" || e.Op == "remove") && !e.Err {
+			if (e.Op == "save" || e.Op == "remove") && a12Happened(e, after) {
 				cnt++
 				lastKind = e.Op + "-" + e.Type
 			}
@@ -342,7 +342,7 @@ func c26RunScenario(h *H, dec *a12Dec, s *c26Scenario) {
 		h.Rec("last", lastKind, Itoa(cnt))
 		a12EmitState(h, dec, in, s.st, "r0")
 		h.Rec("r0check", B(r0chk.Err == nil))
-		a12EmitEvents(h, dec, in, "w", rec.Events)
+		a12EmitEvents(h, dec, in, "w", rec.Events, after)
 		for _, id := range s.sel {
 			sn := dec.Snap(id, s.st["snapshot/"+id])
 			needsOK, rootOK := true, indexed["1."+sn.Tree]
